@@ -150,9 +150,6 @@ class C07(Check):
         @given(st.integers(0, 4).flatmap(lambda m: gens.core_grammar(nrules=6, depth=4, mode='bytes' if m == 0 else 'text')),
                st.booleans(), st.data())
         def prop(g, with_ignore, data):
-            if runner.time_left() < 0:
-                res.truncated = True
-                return
             rules = [r for r in g.rules if r[1] != 'start']
             # fresh-object rules referenced twice at one position: identity of the memoised result
             rules.append(('rule', 'L0', None, ('seq', [('ref', 'R0')])))
@@ -168,16 +165,18 @@ class C07(Check):
             if with_ignore:
                 g2 = g2.copy(ignores=[(None, ('lit', ' '))])
                 exclude = ('start',)
+            alpha = 'ab ' if with_ignore else 'abZ'
+            inputs = gens.all_inputs(alpha, 4, g.mode)
+            inputs += [x.encode('latin-1') if g.mode == 'bytes' else x for x in
+                       data.draw(st.lists(st.text(alphabet=alpha, min_size=5, max_size=10), min_size=10, max_size=10))]
+            if runner.over_budget(res):
+                return
             gi = instrument(g2)
             mod, err = sut.compile_grammar(peg.render(gi))
             if mod is None:
                 res.mismatch({'g': peg.g_to_dict(g2), 'entry': 'start', 'text': ''})
                 return
             res.hist['grammars'] += 1
-            alpha = 'ab ' if with_ignore else 'abZ'
-            inputs = gens.all_inputs(alpha, 4, g.mode)
-            inputs += [x.encode('latin-1') if g.mode == 'bytes' else x for x in
-                       data.draw(st.lists(st.text(alphabet=alpha, min_size=5, max_size=10), min_size=10, max_size=10))]
             pg = {'same': lambda pair: [True, pair[1]]}
             for name in ('start', 'Alt', 'TwiceL', 'TwiceK', 'R0'):
                 hang = False
@@ -195,7 +194,10 @@ class C07(Check):
                         break
                 if hang:
                     break
-        prop()
+        try:
+            prop()
+        except runner.StopTask:
+            pass
         return res
 
     def replay(self, case):
